@@ -4,7 +4,8 @@
 # in "caught_by" is applied to a scratch copy of /repo (outside /repo and /verif), the check is run against the
 # copy, and it must exit 1 reporting an obligation whose key starts with the recorded "expect_key".
 # A miss is a defect of the checker, not a violation of /repo: it is reported as CHECKER-DEFECT and makes the
-# script exit 2. Scratch copies are removed immediately.
+# script exit 2. Then every behaviour-preserving refactoring under benign/<Cxx>-r*/ is applied the same way and the
+# check must stay silent. Scratch copies are removed immediately.
 cd "$(dirname "$0")"
 prop="$1"
 repo="${VERIF_REPO:-/repo}"
@@ -39,5 +40,26 @@ PY
   rm -rf "$base" "$base.sel"
 done
 echo "selftest: $n seeded change(s) exercised for $prop"
+# the other direction: behaviour-preserving refactorings of the code this property is about (benign/<Cxx>-r*/)
+# must leave the check silent; an alarm on one of them is a false alarm, i.e. a checker defect as well
+nb=0
+for dir in benign/"$prop"-r*/; do
+  [ -f "$dir/patch.diff" ] || continue
+  nb=$((nb+1))
+  rm -rf "$base" && mkdir -p "$base/verif/evidence" && cp -r "$repo" "$base/repo" && rm -rf "$base/repo/.git"
+  cp -r ref known_findings.json "$base/verif/" 2>/dev/null
+  if ! (cd "$base/repo" && patch -p1 -s < "$OLDPWD/$dir/patch.diff"); then
+    echo "selftest: $dir/patch.diff no longer applies to the current tree (skipped)"
+  else
+    out=$(bin/sv -prop "$prop" -tier quick -repo "$base/repo" -verif "$base/verif" 2>&1); rc=$?
+    if [ "$rc" -ne 0 ]; then
+      echo "CHECKER-DEFECT: $prop raises an alarm on the behaviour-preserving refactoring $dir:"; printf '%s\n' "$out" | grep -v '^VIOLATION' | head -3; fail=1
+    else
+      echo "selftest: $prop is silent on $dir"
+    fi
+  fi
+  rm -rf "$base"
+done
+echo "selftest: $nb behaviour-preserving refactoring(s) exercised for $prop"
 [ "$fail" -eq 0 ] || exit 2
 exit 0
